@@ -138,8 +138,11 @@ where
         if let Some(ref this) = ctx.this {
             Ok(This(T::from_value(this)?))
         } else {
-            let arg = arg_value_from_context(ctx)
-                .map_err(|_| ExecutionError::missing_argument_or_target())?;
+            if ctx.arg_idx >= ctx.args.len() {
+                return Err(ExecutionError::missing_argument_or_target());
+            }
+            // an error raised while evaluating the argument is that error, not a missing argument
+            let arg = arg_value_from_context(ctx)?;
             Ok(This(T::from_value(&arg)?))
         }
     }
